@@ -9,7 +9,6 @@ use crate::{
     CompilationError, XStaticFunction,
 };
 
-use num_integer::binomial;
 use num_traits::{One, Pow, Signed, ToPrimitive, Zero};
 
 use rc::Rc;
@@ -393,7 +392,7 @@ pub(crate) fn add_int_permutation<W, R, T>(
             if k > n{
                 return xerr(ManagedXError::new("k cannot be greater than n", rt)?);
             }
-            let total = (n-k+1..=n).product();
+            let Some(total) = (n-k+1..=n).try_fold(1usize, |acc, f| acc.checked_mul(f)) else { return xerr(ManagedXError::new("too many permutations", rt)?); };
             if i >= total{
                 return xerr(ManagedXError::new("i too large", rt)?);
             }
@@ -417,6 +416,22 @@ pub(crate) fn add_int_permutation<W, R, T>(
     )
 }
 
+/// binomial coefficient, or None if it does not fit in a usize (stops as soon as it does not)
+fn checked_binomial(n: usize, k: usize) -> Option<usize> {
+    if k > n {
+        return Some(0);
+    }
+    let mut r: u128 = 1;
+    for j in 0..k.min(n - k) {
+        // exact: r is C(n, j) and C(n, j) * (n - j) == C(n, j + 1) * (j + 1)
+        r = r * (n - j) as u128 / (j + 1) as u128;
+        if r > usize::MAX as u128 {
+            return None;
+        }
+    }
+    Some(r as usize)
+}
+
 pub(crate) fn add_int_combination<W, R, T>(
     scope: &mut RootCompilationScope<W, R, T>,
 ) -> Result<(), CompilationError> {
@@ -435,8 +450,11 @@ pub(crate) fn add_int_combination<W, R, T>(
             if k > n{
                 return xerr(ManagedXError::new("k cannot be greater than n", rt)?);
             }
-            let mut s_cutoff = binomial(n-1,k-1);
-            let total = s_cutoff*n/k;
+            if k == 0 {
+                return if i == 0 { Ok(manage_native!(XSequence::<W, R, T>::array(vec![]), rt)) } else { xerr(ManagedXError::new("i too large", rt)?) };
+            }
+            let Some(mut s_cutoff) = checked_binomial(n-1,k-1) else { return xerr(ManagedXError::new("too many combinations", rt)?); };
+            let Some(total) = s_cutoff.checked_mul(n).map(|t| t/k) else { return xerr(ManagedXError::new("too many combinations", rt)?); };
             if i >= total{
                 return xerr(ManagedXError::new("i too large", rt)?);
             }
@@ -481,8 +499,11 @@ pub(crate) fn add_int_combination_with_replacement<W, R, T>(
             if k > n{
                 return xerr(ManagedXError::new("k cannot be greater than n", rt)?);
             }
-            let mut s_cutoff = binomial(n+k-2,k-1);
-            let total = (s_cutoff*(n+k-1))/k;
+            if k == 0 {
+                return if i == 0 { Ok(manage_native!(XSequence::<W, R, T>::array(vec![]), rt)) } else { xerr(ManagedXError::new("i too large", rt)?) };
+            }
+            let Some(mut s_cutoff) = n.checked_add(k).and_then(|nk| checked_binomial(nk-2,k-1)) else { return xerr(ManagedXError::new("too many combinations", rt)?); };
+            let Some(total) = s_cutoff.checked_mul(n+k-1).map(|t| t/k) else { return xerr(ManagedXError::new("too many combinations", rt)?); };
             if i >= total{
                 return xerr(ManagedXError::new("i too large", rt)?);
             }
